@@ -44,8 +44,8 @@ var points = []string{"launching", "configuring", "configured", "starting", "run
 // ---- input ---------------------------------------------------------------------------------
 
 type action struct {
-	kind string // env | kill | term | drop | destroy
-	arg  string // env: point; drop: clean|abrupt; destroy: env index
+	kind string // env | kill | term | drop | destroy | stubborn
+	arg  string // env: point; drop: clean|abrupt; destroy: env index; stubborn: silent|killing
 }
 
 // scenario = (K KV0 (ACTION…))
@@ -93,6 +93,12 @@ func parseScenario(in string) (*scenario, error) {
 			if act.arg != "clean" && act.arg != "abrupt" {
 				return nil, fmt.Errorf("scenario: bad drop kind")
 			}
+		case "stubborn":
+			// the tasks alive now outlive every KILL from here on: silent = the KILL has no effect at all (lost
+			// on the way to a partitioned agent / ignored), killing = the task reports TASK_KILLING and hangs there
+			if act.arg != "silent" && act.arg != "killing" {
+				return nil, fmt.Errorf("scenario: bad stubborn mode")
+			}
 		case "destroy":
 			var i int
 			if _, e := fmt.Sscanf(act.arg, "%d", &i); e != nil || i < 0 || i >= envs {
@@ -110,6 +116,13 @@ func parseScenario(in string) (*scenario, error) {
 	}
 	if envs > 4 || len(s.acts) > 12 {
 		return nil, fmt.Errorf("scenario: too long")
+	}
+	// A task that cannot be killed makes the core's own teardown paths (DestroyEnvironment, the clean-up after a
+	// failed operation) run into their internal timeouts: the life that owns such tasks must end at once.
+	for i, a := range s.acts {
+		if a.kind == "stubborn" && (i+1 >= len(s.acts) || (s.acts[i+1].kind != "kill" && s.acts[i+1].kind != "term")) {
+			return nil, fmt.Errorf("scenario: (stubborn …) must be followed by (kill) or (term)")
+		}
 	}
 	return s, nil
 }
@@ -324,6 +337,20 @@ func (r *runner) quiet(rounds int, phase string) error {
 	}
 	r.mark(q)
 	return nil
+}
+
+// stubborn: every task the master holds alive now outlives every KILL from here on (see parseScenario).
+// The rules are per task id, so tasks launched later behave normally.
+func (r *runner) stubborn(mode string) {
+	out := sim.Outcome{Kind: sim.Silent}
+	if mode == "killing" {
+		out = sim.Outcome{Kind: sim.OK, MesosState: mesos.TASK_KILLING}
+	}
+	for _, t := range r.w.Tasks() {
+		if !t.Terminal {
+			r.w.SetOutcome(sim.Selector{TaskID: t.TaskID}, sim.EvKill, out)
+		}
+	}
 }
 
 func (r *runner) class(j int) string { return fmt.Sprintf("c18t%d", j) }
@@ -660,6 +687,8 @@ func runScenario(sc *scenario, verbose bool) (string, error) {
 			err = r.restart(true)
 		case "drop":
 			err = r.drop(a.arg == "abrupt")
+		case "stubborn":
+			r.stubborn(a.arg)
 		case "destroy":
 			var i int
 			fmt.Sscanf(a.arg, "%d", &i)
